@@ -319,7 +319,11 @@ class RedshiftBinningFactory:
         if not isinstance(comov_edges, units.Quantity):
             comov_edges = comov_edges * units.Mpc
 
-        edges = z_at_value(self.cosmology.comoving_distance, comov_edges).value
+        def comoving_distance(z):  # custom cosmologies return plain floats in Mpc
+            dist = self.cosmology.comoving_distance(z)
+            return dist if isinstance(dist, units.Quantity) else dist * units.Mpc
+
+        edges = z_at_value(comoving_distance, comov_edges).value
         edges[0], edges[-1] = min, max  # exact, not just to solver tolerance
         return Binning(edges, closed=closed)
 
